@@ -24,6 +24,7 @@ mod c07;
 mod c07socks;
 mod c08;
 mod c09;
+mod c09live;
 mod c10;
 mod c11;
 mod c12;
@@ -113,6 +114,7 @@ fn main() {
         "c18h3" => c18::run_h3(&mut ctx),
         "c19live" => c19::run_live(&mut ctx),
         "c04live" => c04::run_live(&mut ctx),
+        "c09live" => c09live::run(&mut ctx),
         "c14est" => c10::run_establish(&mut ctx),
         "c14live" => c14live::run(&mut ctx),
         "c11" => c11::run(&mut ctx),
